@@ -65,6 +65,50 @@ def run(ctx):
     r6(ctx)
     r7(ctx)
     r8(ctx)
+    r9(ctx)
+
+
+def r9(ctx):
+    """Sleep-mask section table: every (start, end) pair read is reported, in read order, unless it is the all-zero
+    terminator - no well-formed entry (e.g. one starting at offset 0) may be dropped."""
+    from csverif.q import specialise
+
+    f = ctx.repo.func("beacon.parse_gargle")
+    cfg = ctx.cfg(f)
+    fv = FuncView.of(f.node)
+    loops = [s for s in statements(f.node) if isinstance(s, ast.While)]
+    rets = [r for r in statements(f.node) if isinstance(r, ast.Return) and r.value is not None]
+    out = dotted(rets[0].value) if len(rets) == 1 else None
+    apps = [c for c in fn_calls(f.node) if isinstance(c.func, ast.Attribute) and c.func.attr == "append" and dotted(c.func.value) == out and len(c.args) == 1]
+    if len(loops) != 1 or out is None or len(apps) != 1:
+        ctx.ob("R9", "AGREE", f, "section table loop", False, f"expected one while loop, one returned list and one append to it; found {len(loops)}/{out}/{len(apps)}", f.node)
+        return
+    w, app = loops[0], apps[0]
+    # the two integers of an entry: locals defined in the loop from an unpack of a 4-byte read, in statement order
+    ints = []
+    for s in statements(w):
+        if isinstance(s, ast.Assign) and len(s.targets) == 1 and isinstance(s.targets[0], ast.Name) and isinstance(s.value, ast.Call) and _is_be32(ctx, f, s.value) is not None:
+            ints.append((s.targets[0].id, s, _is_be32(ctx, f, s.value)))
+    names = [n for n, _s, _k in ints]
+    ctx.ob("R9", "AGREE", f, "entry = two 32-bit reads", len(ints) == 2 and ints[0][2] == ints[1][2] and ints[0][2][0] == 4 and not ints[0][2][2],
+           f"entry integers {[(n, k) for n, _s, k in ints]} (two unsigned 4-byte reads decoded alike)", w)
+    if len(ints) != 2:
+        return
+    from csverif.q import inline
+
+    val = inline(f.node, app.args[0], stop=frozenset(names))
+    used_sorted = [n.id for n in sorted((n for n in ast.walk(val) if isinstance(n, ast.Name) and n.id in names), key=lambda n: (n.lineno, n.col_offset))]
+    ctx.ob("R9", "AGREE", f, "entry text = start-end", used_sorted == names, f"appended value {src(val)[:60]} uses {used_sorted}; required {names} (read order)", app)
+    app_st = fv.stmt_of(app)
+    last = cfg.node(ints[1][1])
+    head = cfg.node(w)
+    bad = []
+    for a, b in ((True, True), (True, False), (False, True)):
+        c2 = specialise(cfg, {names[0]: a, names[1]: b}, ints=frozenset(names))
+        if c2.reaches(last, head, avoiding=[cfg.node(app_st)]):
+            bad.append(f"{names[0]}{'!=' if a else '=='}0,{names[1]}{'!=' if b else '=='}0")
+    ctx.ob("R9", "DOM", f, "every non-terminator entry reported", not bad,
+           "for each of start/end non-zero the append lies on every path of the iteration" if not bad else f"an entry with {bad} can complete the iteration without being appended", app)
 
 
 def r1(ctx):
@@ -431,6 +475,19 @@ def r7(ctx):
     part = [c for c in fn_calls(g.node) if isinstance(c.func, ast.Attribute) and c.func.attr in ("partition", "split", "find", "index")]
     ok = len(part) == 1 and part[0].func.attr == "partition" and part[0].args and is_const(part[0].args[0], b"\x00")
     ctx.ob("R7", "AGREE", g, "partition(b'\\x00')", ok, "cuts at the first NUL" if ok else f"NUL cut is {[src(p) for p in part]}")
+    # strings: every byte before the NUL becomes exactly one character - only a total single-byte codec does that
+    # (latin-1); ascii/utf-8 with "ignore" and the Windows code pages drop or remap high bytes
+    h = ctx.repo.func("beacon.null_terminated_str")
+    dec = [c for c in fn_calls(h.node) if isinstance(c.func, ast.Attribute) and c.func.attr == "decode"]
+    codec = None
+    if len(dec) == 1:
+        cv = dec[0].args[0] if dec[0].args else kwarg(dec[0], "encoding")
+        codec = str(_c(cv)).lower().replace("_", "-") if cv is not None and isinstance(_c(cv), str) else ("utf-8" if cv is None else None)
+    inner = dec[0].func.value if len(dec) == 1 else None
+    cut = isinstance(inner, ast.Call) and ctx.rs.resolve_call(h, inner).fq == "beacon.null_terminated_bytes" and inner.args and dotted(inner.args[0]) == params(h.node)[0]
+    ok = codec in ("latin-1", "latin1", "iso-8859-1", "iso8859-1", "l1", "8859") and bool(cut)
+    ctx.ob("R7", "AGREE", h, "null_terminated_bytes(data).decode(<total single-byte codec>)", ok,
+           f"decodes the NUL-cut bytes={bool(cut)} with codec {codec!r}" + ("" if ok else " (required latin-1: one character per byte, nothing dropped or remapped)"), h.node)
 
 
 def r8(ctx):
